@@ -117,11 +117,13 @@ enum { SITE_MALLOC = 100, SITE_FREE = 101, SITE_GETSPECIFIC = 102, SITE_MUTEX = 
        SITE_JOIN = 104, SITE_CREATE = 105, SITE_EXPLICIT = 106, SITE_EXIT = 107 };
 void sched_init(const Plan* p);          /* installs yield hooks */
 void sim_yield(int site);
+void sim_pause(void);
 int  sched_self(void);                   /* simulated thread id, 0 = main */
 long sched_switches(void);
 long sched_yields(void);
 int  sched_nthreads(void);
-extern long sched_lib_switches;          /* context switches at library-internal sites */
+extern long sched_lib_switches;
+extern long sched_hook_switches[16];          /* context switches at library-internal sites */
 void sched_stats_flush(void);
 int  sched_thread_done(int tid);
 
